@@ -14,7 +14,7 @@ CFG = {'p_coarse': 0.15, 'p_periodic': 0.1, 'T': (4, 9), 'n_assets': (1, 4), 'no
 
 
 def grid_variants(sp, rng):
-    """the grid of the spec and three others: another horizon, another time zone, a shifted start"""
+    """the grid of the spec and others: another horizon, another time zone, a shifted start, coarser and finer steps"""
     g0 = dict(sp['grid'])
     step = gen.freq_td(g0['freq'])
     s0, e0 = pd.Timestamp(g0['start']), pd.Timestamp(g0['end'])
@@ -22,7 +22,9 @@ def grid_variants(sp, rng):
     g1 = dict(g0, end=gen.fmt(s0 + rng.randint(1, max(1, g0['T'] - 1)) * step))                      # shorter horizon, same start
     g2 = dict(g0, tz=('CET' if g0.get('tz') is None else None))                                      # other time zone
     g3 = dict(g0, start=gen.fmt(s0 + rng.randint(1, 3) * step), end=gen.fmt(e0 + rng.randint(1, 4) * step))   # shifted, longer
-    for g in (g1, g2, g3):
+    g4 = dict(g0, freq={'h': '2h', '30min': 'h'}.get(g0['freq'], g0['freq']))                        # coarser steps (may equal an asset's own frequency)
+    g5 = dict(g0, freq={'h': '30min', '30min': '15min'}.get(g0['freq'], g0['freq']))                 # finer steps
+    for g in (g1, g2, g3, g4, g5):
         try:
             gen.check_safe(g['start'], g.get('tz')); gen.check_safe(g['end'], g.get('tz'))
             g['T'] = gen.grid_T(g)
@@ -104,6 +106,20 @@ def run(ctx):
                     if isinstance(a.get(key), dict) and rng.random() < 0.5:
                         a[key]['as_array'] = True
             sp['opts']['ops'] = gen_ops(sp, rng, len(sp['opts']['grids']))
+    # assets with an own frequency first set up on a grid of exactly that frequency, then on the finer grid of the spec
+    own = gen.gen_many(ctx.seed, n // 5, dict(CFG, freqs=['h'], p_coarse=0.9, coarse_freqs=['2h'], coarse_any=True, p_periodic=0.0, n_assets=(1, 3),
+                                              kinds={'SimpleContract': 2, 'Contract': 1, 'Transport': 1, 'Storage': 2}), 'c10f_')
+    for sp in own:
+        rng = random.Random(str(sp['seed']) + '/ops')
+        gs = grid_variants(sp, rng)
+        sp['opts']['grids'] = gs
+        gi = [i for i, g in enumerate(gs) if g['freq'] == '2h']
+        if not gi:
+            continue
+        k = rng.randrange(len(sp['assets']))
+        first = rng.choice([{'op': 'P', 'g': gi[0], 'p': 0}, {'op': 'A', 'k': k, 'g': gi[0], 'p': 0}, {'op': 'At', 'k': k, 'g': gi[0]}])
+        sp['opts']['ops'] = [first, {'op': 'P', 'g': 0, 'p': 0}, {'op': 'A', 'k': k, 'g': 0, 'p': 1}]
+        specs.append(sp)
     specs = ctx.specs(specs)
     res = C.run_impl('purity', specs)
     for sp, o in zip(specs, res):
